@@ -141,6 +141,34 @@ class PolicyChooser(Chooser):
                 if m[1] == s:
                     return i
             return 0
+        if p == "placed":
+            # realise a pre-drawn task -> worker placement (a random restricted-growth string per pool map): the next task of
+            # the FIFO queue waits for its target worker to become idle, whatever the other workers do meanwhile
+            ms = hub.map_state
+            if ms is not None and ms["next"] < ms["n"]:
+                key = (len(hub.maps), ms["next"])
+                if not hasattr(self, "_plc"):
+                    self._plc = {}
+                used = sorted(sl for sl in ms["workers"] if hub.actors[sl].tasks_run > 0)
+                if key not in self._plc:
+                    k = self.rng.randrange(min(ms["w"], len(used) + 1))
+                    self._plc[key] = used[k] if k < len(used) else "fresh"
+                tgt = self._plc[key]
+                if tgt == "fresh":
+                    for i, m in enumerate(moves):
+                        if m[0] == "task" and hub.actors[m[1]].tasks_run == 0:
+                            return i
+                else:
+                    for i, m in enumerate(moves):
+                        if m == ("task", tgt):
+                            return i
+                    for i, m in enumerate(moves):
+                        if m == ("run", tgt):
+                            return i
+            runs = [i for i, m in enumerate(moves) if m[0] == "run"]
+            if runs:
+                return runs[self.rng.randrange(len(runs))]
+            return self.rng.randrange(len(moves))
         if p == "yield":
             # pre-empt an actor right after it mutated a path (truncating open, rename, unlink, new sqlite file) and keep
             # it off the CPU for a few steps: the window in which peers can observe its half-done work
